@@ -82,6 +82,7 @@ LegalCycle(list) ==
   /\ Len(list) >= 2 /\ list[1] = target
   /\ \A i \in 1..(Len(list) - 1) : CycleEdge(list[i], list[i+1])
   /\ \E i \in 1..(Len(list) - 1) : list[i] = list[Len(list)]
+  /\ ~Done(list[Len(list)])
 NoStall ==
   (Running /\ EngineFree /\ ~cyc /\ cancelled = "no" /\ Stuck) =>
      (BuildComplete \/ \E list \in CycleLists : LegalCycle(list))
